@@ -234,7 +234,12 @@ func (c *C11Scn) instances(n int) (out []*trie.SlimTrie, err error) {
 type unitRef struct {
 	out   string
 	steps int64
+	sites map[int]int32 // solo site profile (only recorded when a sweep strategy needs it)
 }
+
+// soloSiteRec, when non-nil, receives the sites visited by the unit that is
+// being run alone.
+var soloSiteRec map[int]int32
 
 // soloRefs runs every distinct unit alone on st with a counting hook.
 func soloRefs(st *trie.SlimTrie, tasks []TaskSpec) (map[string]unitRef, int64) {
@@ -248,13 +253,23 @@ func soloRefs(st *trie.SlimTrie, tasks []TaskSpec) (map[string]unitRef, int64) {
 				total += r.steps
 				continue
 			}
+			var prof map[int]int32
+			if recordSoloSites {
+				prof = map[int]int32{}
+				soloSiteRec = prof
+			}
 			out, n := runSoloCapped(st, u)
-			refs[k] = unitRef{out, n}
+			soloSiteRec = nil
+			refs[k] = unitRef{out, n, prof}
 			total += n
 		}
 	}
 	return refs, total
 }
+
+// recordSoloSites is switched on by the executor for runs whose strategy needs
+// the solo site profile.
+var recordSoloSites bool
 
 const soloCap = 400_000
 
@@ -264,8 +279,12 @@ const soloCap = 400_000
 func runSoloCapped(st *trie.SlimTrie, u *Unit) (string, int64) {
 	var n int64
 	capped := false
-	xsimrt.Hook = func(int) {
+	rec := soloSiteRec
+	xsimrt.Hook = func(site int) {
 		n++
+		if rec != nil {
+			rec[site]++
+		}
 		if n > soloCap && !capped {
 			capped = true
 			panic(abortUnit{"solo-cap"})
@@ -311,7 +330,10 @@ func executeC11(scn *Scenario) *RunResult {
 	}
 	subject, twinA, twinB := inst[0], inst[1], inst[2]
 
+	recordSoloSites = scn.Strat.Kind == "sweep" && !scn.Strat.Resolved
 	refs, total := soloRefs(twinA, c.Tasks)
+	recordSoloSites = false
+	resolveSweep(&scn.Strat, c.Tasks, refs)
 	refsB, _ := soloRefs(twinB, c.Tasks)
 	for k, r := range refs {
 		if refsB[k].out != r.out {
@@ -425,6 +447,7 @@ func executeC11(scn *Scenario) *RunResult {
 	res.SitePairs = sim.sitePairs
 	res.Counters["switches"] += int64(sim.switches)
 	res.Counters["fault.preemption_inside_unit"] += int64(sim.preemptIn)
+	res.Counters["fault.unit_run_while_other_task_parked_mid_unit"] += int64(sim.overlaps)
 	res.Counters["strategy."+scn.Strat.Kind]++
 	res.Counters["source."+c.Source]++
 	for k, v := range sim.overlapPairs {
@@ -474,7 +497,7 @@ func executeC11(scn *Scenario) *RunResult {
 		}
 	}
 	res.Viol = viol
-	res.NonTrivial = sim.preemptIn > 0
+	res.NonTrivial = sim.preemptIn > 0 || sim.overlaps > 0
 	if res.NonTrivial {
 		res.Distinct = []uint64{sim.schedHash}
 	}
